@@ -425,6 +425,116 @@ class Translator:
                 self.keeps_units[mname] = True
             else:
                 fail(xm.rel, blocks[0], 'Expr.%s: unrecognised as_constant block %s' % (mname, srcs))
+        # --- source shape of four small mechanisms that the hand model is parametrised by (each must be one of the two
+        #     recognised shapes, otherwise the translation fails closed)
+        def method(cd, name, rel):
+            fds = [n for n in cd.body if isinstance(n, ast.FunctionDef) and n.name == name]
+            if len(fds) != 1:
+                raise Untranslatable('%s: %s.%s not found (or defined twice)' % (rel, cd.name, name))
+            return fds[0]
+
+        def nodoc(body):
+            return [b for b in body if not (isinstance(b, ast.Expr) and isinstance(b.value, ast.Constant))]
+        ex = xm.classes['Expr']
+        # (a) conversion branch of __compat_add__
+        ca = method(ex, '__compat_add__', xm.rel)
+        PH = 'self.is_phasor_ratio_domain and x.is_angular_fourier_domain'
+        GUARD = "self.quantity != x.quantity and 'undefined' not in (self.quantity, x.quantity)"
+        CONV = ['self.is_phasor_ratio_domain and x.is_angular_fourier_domain', 'self.is_angular_fourier_domain and x.is_phasor_ratio_domain',
+                'self.is_angular_frequency_response_domain and x.is_angular_fourier_domain',
+                'self.is_angular_fourier_domain and x.is_angular_frequency_response_domain']
+
+        def chain_tests(n):
+            out = []
+            while True:
+                out.append(ast.unparse(n.test))
+                if len(n.orelse) == 1 and isinstance(n.orelse[0], ast.If):
+                    n = n.orelse[0]
+                else:
+                    if n.orelse:
+                        return None
+                    return out
+        hits = []
+        for st in ca.body:
+            if isinstance(st, ast.If):
+                ts = chain_tests(st)
+                if ts == CONV:
+                    hits.append(False)
+                elif ts == [GUARD] + CONV and len(st.body) == 1 and isinstance(st.body[0], ast.Pass):
+                    hits.append(True)
+                elif ts and any(t in CONV or t == GUARD for t in ts):
+                    fail(xm.rel, st, 'Expr.__compat_add__: unrecognised shape of the phasor conversion branches')
+        if len(hits) != 1:
+            fail(xm.rel, ca, 'Expr.__compat_add__: phasor conversion branches not found exactly once')
+        self.compat_guard = hits[0]
+        # (b) units of a sum
+        SUM_UNITS = ['for operand in (self, x):\n    if operand.__class__ is cls and operand.sympy != 0:\n        ret.units = operand.units\n        break',
+                     'return ret']
+        shapes = []
+        for mname, ret0, ret1 in (('__add__', 'return cls(result, **assumptions)', 'return self._sum_units(cls(result, **assumptions), cls, x)'),
+                                  ('__sub__', 'return cls(self.sympy - x.sympy, **assumptions)',
+                                   'return self._sum_units(cls(self.sympy - x.sympy, **assumptions), cls, x)')):
+            fd = method(ex, mname, xm.rel)
+            last = ast.unparse(fd.body[-1])
+            if last == ret0:
+                shapes.append(False)
+            elif last == ret1:
+                shapes.append(True)
+            else:
+                fail(xm.rel, fd.body[-1], 'Expr.%s: unrecognised return statement' % mname)
+            for n in ast.walk(fd):
+                if isinstance(n, ast.Attribute) and n.attr == 'units' and isinstance(n.ctx, ast.Store):
+                    fail(xm.rel, n, 'Expr.%s assigns units in an unrecognised way' % mname)
+        if shapes[0] != shapes[1]:
+            fail(xm.rel, ex, 'Expr.__add__ and Expr.__sub__ treat the units of the result differently')
+        self.add_keeps_units = shapes[0]
+        if self.add_keeps_units:
+            su = method(ex, '_sum_units', xm.rel)
+            if [a.arg for a in su.args.args] != ['self', 'ret', 'cls', 'x'] or [ast.unparse(b) for b in nodoc(su.body)] != SUM_UNITS:
+                fail(xm.rel, su, 'Expr._sum_units: unrecognised body')
+        # (c) the quantity mixins' __rtruediv__
+        shapes = []
+        for modname, cname, other in (('impedancemixin', 'ImpedanceMixin', 'admittance'), ('admittancemixin', 'AdmittanceMixin', 'impedance')):
+            mm = self.mod(modname)
+            if cname not in mm.classes:
+                raise Untranslatable('%s: class %s not found' % (mm.rel, cname))
+            fd = method(mm.classes[cname], '__rtruediv__', mm.rel)
+            body = [ast.unparse(b) for b in nodoc(fd.body)]
+            pre = 'x = expr(x)'
+            post = 'return super(%s, self).__rtruediv__(x)' % cname
+            b0 = 'if x.is_constant:\n    from .%s import %s\n    return %s(x.expr / self.expr)' % (other, other, other)
+            b1 = ('if x.is_constant:\n    from .%s import %s\n    ret = %s(x.expr / self.expr)\n    ret.units = x.units / self.units\n'
+                  '    return ret' % (other, other, other))
+            if body == [pre, b0, post]:
+                shapes.append(False)
+            elif body == [pre, b1, post]:
+                shapes.append(True)
+            else:
+                fail(mm.rel, fd, '%s.__rtruediv__: unrecognised body' % cname)
+        if shapes[0] != shapes[1]:
+            fail(xm.rel, ex, 'ImpedanceMixin.__rtruediv__ and AdmittanceMixin.__rtruediv__ differ in how they set units')
+        self.rdiv_keeps_units = shapes[0]
+        # (d) TimeDomainExpression.FT
+        tm = self.mod('texpr')
+        if 'TimeDomainExpression' not in tm.classes:
+            raise Untranslatable('lcapy/texpr.py: class TimeDomainExpression not found')
+        fd = method(tm.classes['TimeDomainExpression'], 'FT', tm.rel)
+        body = [ast.unparse(b) for b in fd.body]
+        try:
+            i = [k for k, b in enumerate(body) if b.startswith('result = self.change(result, domain=')][0]
+        except IndexError:
+            fail(tm.rel, fd, 'TimeDomainExpression.FT: no `result = self.change(result, domain=...)` statement')
+        tail = body[i + 1:]
+        T0 = ['result = result(var)', 'result = result.expand(diracdelta=True, wrt=var)', 'result = result.simplify()', 'return result']
+        T1 = ['units = result.units'] + T0[:3] + ['result.units = units', 'return result']
+        if body[i] != "result = self.change(result, domain='fourier', units_scale=uu.s, **assumptions)":
+            fail(tm.rel, fd, 'TimeDomainExpression.FT: unrecognised change() call')
+        if tail == T0:
+            self.ft_keeps_units = False
+        elif tail == T1:
+            self.ft_keeps_units = True
+        else:
+            fail(tm.rel, fd, 'TimeDomainExpression.FT: unrecognised statements after change()')
         # --- flag reads
         self.flag_reads = []     # (file, function, flag, line)
         for fn in sorted(os.listdir(os.path.join(self.repo, 'lcapy'))):
@@ -640,6 +750,8 @@ class Translator:
         out.append('  class_quantity := gen_class_quantity; class_domain := gen_class_domain; dom_units := gen_dom_units;')
         out.append('  dflag := gen_dflag; qratio := gen_qratio; cdflag := gen_cdflag; cqflag := gen_cqflag; meth_owner := gen_meth_owner; subclass := gen_subclass;')
         out.append('  mul_keeps_units := %s; div_keeps_units := %s;' % tuple('true' if self.keeps_units[m] else 'false' for m in ('__mul__', '__truediv__')))
+        out.append('  rdiv_keeps_units := %s; compat_guard := %s; add_keeps_units := %s; ft_keeps_units := %s;' % tuple(
+            'true' if b else 'false' for b in (self.rdiv_keeps_units, self.compat_guard, self.add_keeps_units, self.ft_keeps_units)))
         out.append('  sites := gen_sites; flag_reads := gen_flag_reads |}.')
         return '\n'.join(out) + '\n'
 
